@@ -29,6 +29,11 @@ histories executed on ONE `Modules` value, that this extra state is transparent:
                              | entries of an earlier run (D46), value lists of     | fresh Modules (Go vs Go, a
                              | identities that lost their key (D55), typeDict.dict,| violation by itself) = model
                              | Modules/SubModules/unrevisioned maps                |
+                             | the same through Modules.GetModule (processes on    | `getmodule` operations (on demand
+                             | demand: a "nothing to do" shortcut must see loads:  | after loads, repeatedly, touched /
+                             | seeded change C18-l21); links of imports / includes | untouched modules): returned tree =
+                             | PINNED by revision-date after a run that fell back  | a fresh set's; pinned revision
+                             | to another revision (seeded change C18-l22)         | arriving after a run (`pinned/`)
   failed_load_no_trace       | typeDict.dict (typedefs of nested scopes register   | bad texts with ONE late fault,
                              | while the AST is built: D31), name maps after a     | exact duplicates, two-module
                              | partial add (D32), `mod.Modules` back pointer       | texts whose second module is
